@@ -462,6 +462,12 @@ def mesh_spec(draw):
         enc["transposed"] = [t for t in enc["transposed"] if t in enc["supply"] or t == "face_node"]
         enc["dangling"] = sorted(set(enc["dangling"]) | {"edge_node"})
         enc["edge_dim_attr"] = False
+    if "face_edge" in enc["supply"] and not (enc["edge_dim_attr"] or "edge_node" in enc["supply"]
+                                             or "edge_face" in enc["supply"]):
+        # a face-edge table whose edge numbers refer to nothing (no edge dimension at all) is
+        # not a mesh emsarray claims to read: declare the dimension
+        enc["edge_dim_attr"] = True
+        enc["edge_coords"] = True
     return draw(S.dataset_spec(convs=["ugrid"], max_vars=2, max_extra=2, modes=("raw", "raw", "decoded"),
                                geom_kwargs={"max_j": 2, "max_i": 2, "enc": enc}))
 
